@@ -155,6 +155,7 @@ theorem formatInfoOf_eq (d : Nat) : (QRDec.formatInfoOf d).map encFI = .ok (fiOf
 
 /-! ### doDecodeFormatInformation -/
 
+when_kernel Gzx.Gen.K01d.tbl_formatInfoDecodeLookup in
 /-- the regenerated look-up table is the table the model is instantiated with (`QRTables.fmt`, kind `table`) -/
 theorem k_formatTable_eq : Gen.K01d.tbl_formatInfoDecodeLookup = fmtRows QRTables.fmt := by decide +kernel
 
